@@ -302,6 +302,7 @@ fn dq_parts(input: Span) -> PResult<Vec<StringPart>> {
             map(hash_no_interpolation, StringPart::from),
             value(StringPart::Raw("\"".to_string()), tag("\\\"")),
             value(StringPart::Raw("'".to_string()), tag("'")),
+            value(StringPart::from(""), tag("\\\n")),
             map(normalized_escaped_char_q, StringPart::Raw),
         ))),
         char('"'),
